@@ -215,6 +215,14 @@ func TestC07_Direct(t *testing.T) {
 			lay = &log.JSONLayout{BaseLayout: log.BaseLayout{FileLineLength: h.W}}
 			layouts[h.W] = lay
 		}
+		if rapid.IntRange(0, 9).Draw(t, "afterOversized") == 0 {
+			// an earlier event whose line is larger than the buffer-reuse cap: what it leaves in the
+			// buffer pool must not show up in the next line
+			big := &log.Event{Level: log.ErrorLevel, Time: h.Time, File: "big.go", Line: 1, Tag: "_big",
+				Fields: []log.Field{log.String("dump", strings.Repeat(rapid.SampledFrom([]string{"Z", "stack\n\tframe ", "é"}).Draw(t, "bigUnit"), rapid.IntRange(11000, 40000).Draw(t, "bigLen")))}}
+			_ = lay.ToBytes(big)
+			vk.Class("after-oversized-line")
+		}
 		e := &log.Event{Level: h.Level, Time: h.Time, File: h.File, Line: h.Line, Tag: h.Tag, Fields: fld.Fields, CtxString: h.Ctx, CtxFields: ctx.Fields}
 		line := bytes.Clone(lay.ToBytes(e))
 		desc := h.desc() + " ctx=[" + strings.Join(ctx.Desc, "; ") + "] fields=[" + strings.Join(fld.Desc, "; ") + "]"
